@@ -28,7 +28,7 @@ LEVEL_TEXT = ('every (stage x worker x failure mode x crash point) combination o
               'the claim is exhaustive over that finite grid (reported in the evidence), not over all crash instants')
 
 STAGES = ['mapping', 'stats', 'refm', 'qmark', 'pmask', 'pm2m', 'transpose']
-MODES = ['kill', 'exit', 'raise']
+MODES = ['kill', 'exit', 'raise', 'term']
 POINTS = ['before', 'mid', 'after']
 MAX_WORKERS = 6
 DESTS = ['all', 'csv_only', 'obsm_only', 'json_only', 'hdf5_csv']
